@@ -2,6 +2,7 @@
 mod common;
 mod c20;
 mod c07;
+mod c05;
 mod c12;
 mod c11;
 mod c04;
@@ -14,7 +15,7 @@ use common::*;
 
 fn main() {
   let args: Vec<String> = std::env::args().collect();
-  if args.len() < 5 && !(args.len() >= 2 && args[1] == "eval") {
+  if args.len() < 5 && !(args.len() >= 2 && (args[1] == "eval" || args[1] == "sess")) {
     eprintln!("usage: mvh <prop> <seed> <quick|thorough|replay> <outdir> [replay-file]");
     std::process::exit(2);
   }
@@ -33,6 +34,26 @@ fn main() {
     }
     return;
   }
+  if args.len() >= 2 && args[1] == "sess" {
+    // probing aid: stdin lines are sessions, statements separated by " ;; ", interpreted one by one
+    std::panic::set_hook(Box::new(|_| {}));
+    let mut text = String::new();
+    use std::io::Read;
+    std::io::stdin().read_to_string(&mut text).unwrap();
+    for l in text.lines() {
+      if l.trim().is_empty() { continue; }
+      let mut intrp = mech_interpreter::Interpreter::new(0);
+      println!("SESSION {}", l);
+      for stmt in l.split(" ;; ") {
+        let r = match interp::parse_code(stmt) {
+          Err(e) => format!("harness:{}", e),
+          Ok(t) => match std::panic::catch_unwind(std::panic::AssertUnwindSafe(|| intrp.interpret(&t))) {
+            Ok(Ok(v)) => format!("ok {}", interp::canon(&v).chars().take(40).collect::<String>()), Ok(Err(e)) => format!("ERR {}", e.kind_name()), Err(_) => "HOSTPANIC".to_string() } };
+        println!("   {:28} -> {:40} | {}", stmt, r, interp::symbols(&intrp).chars().take(150).collect::<String>());
+      }
+    }
+    return;
+  }
   let prop = args[1].as_str();
   let seed: u64 = args[2].parse().unwrap_or(0);
   let mode = args[3].as_str();
@@ -43,6 +64,7 @@ fn main() {
   let (generate, exec): (fn(u64, bool, &mut Sink) -> Vec<String>, fn(&str) -> String) = match prop {
     "C20" => (c20::generate, c20::exec),
     "C07" => (c07::generate, c07::exec),
+    "C05" => (c05::generate, c05::exec),
     "C12" => (c12::generate, c12::exec),
     "C11" => (c11::generate, c11::exec),
     "C04" => (c04::generate, c04::exec),
